@@ -957,7 +957,17 @@ func (r mAccounts) Count(ctx context.Context, q common.ResourceQuery[any]) (int,
 	return len(r.s.state().accounts), nil
 }
 
+// recPaginated: the queries handed to the Paginate methods of the resources (RunQuery harnesses compare them with
+// the direct query they should equal)
+type recPaginated struct {
+	resource string
+	query    any
+}
+
+var recPages []recPaginated
+
 func (r mAccounts) Paginate(ctx context.Context, q common.PaginatedQuery[any]) (*paginate.Cursor[ledger.Account], error) {
+	recPages = append(recPages, recPaginated{"accounts", q})
 	st := r.s.state()
 	var addrs []string
 	for a := range st.accounts {
@@ -985,6 +995,7 @@ func (r mLogs) Count(ctx context.Context, q common.ResourceQuery[any]) (int, err
 
 // Paginate returns the logs in descending id order (the resource's default), limited to the page size of an initial query.
 func (r mLogs) Paginate(ctx context.Context, q common.PaginatedQuery[any]) (*paginate.Cursor[ledger.Log], error) {
+	recPages = append(recPages, recPaginated{"logs", q})
 	if err := r.s.enter("Logs.Paginate"); err != nil {
 		return nil, err
 	}
@@ -1000,12 +1011,18 @@ func (r mLogs) Paginate(ctx context.Context, q common.PaginatedQuery[any]) (*pag
 		}
 	}
 	sorted := append([]*ledger.Log(nil), st.logs...)
-	sort.SliceStable(sorted, func(i, j int) bool {
-		if asc {
-			return *sorted[i].ID < *sorted[j].ID
+	for i := 1; i < len(sorted); i++ { // insertion sort (stable)
+		for j := i; j > 0; j-- {
+			before := *sorted[j].ID > *sorted[j-1].ID
+			if asc {
+				before = *sorted[j].ID < *sorted[j-1].ID
+			}
+			if !before {
+				break
+			}
+			sorted[j], sorted[j-1] = sorted[j-1], sorted[j]
 		}
-		return *sorted[i].ID > *sorted[j].ID
-	})
+	}
 	c := &paginate.Cursor[ledger.Log]{}
 	for i := 0; i < limit; i++ {
 		c.Data = append(c.Data, *cloneLog(sorted[i]))
@@ -1043,6 +1060,7 @@ func (r mTransactions) Count(ctx context.Context, q common.ResourceQuery[any]) (
 	return len(r.s.state().txs), nil
 }
 func (r mTransactions) Paginate(ctx context.Context, q common.PaginatedQuery[any]) (*paginate.Cursor[ledger.Transaction], error) {
+	recPages = append(recPages, recPaginated{"transactions", q})
 	c := &paginate.Cursor[ledger.Transaction]{}
 	for _, t := range r.s.state().txs {
 		c.Data = append(c.Data, *cloneTx(t))
@@ -1058,8 +1076,23 @@ func (s *mStore) AggregatedBalances() common.Resource[ledger.AggregatedVolumes, 
 	panic("dbmodel: AggregatedBalances is not modelled")
 }
 
+type mVolumes struct{ s *mStore }
+
+func (r mVolumes) GetOne(ctx context.Context, q common.ResourceQuery[ledger.GetVolumesOptions]) (*ledger.VolumesWithBalanceByAssetByAccount, error) {
+	panic("dbmodel: Volumes().GetOne is not modelled")
+}
+func (r mVolumes) Count(ctx context.Context, q common.ResourceQuery[ledger.GetVolumesOptions]) (int, error) {
+	panic("dbmodel: Volumes().Count is not modelled")
+}
+
+// Paginate only records the query (the rows of a volumes listing are the SQL half's business: C05 / C20)
+func (r mVolumes) Paginate(ctx context.Context, q common.PaginatedQuery[ledger.GetVolumesOptions]) (*paginate.Cursor[ledger.VolumesWithBalanceByAssetByAccount], error) {
+	recPages = append(recPages, recPaginated{"volumes", q})
+	return &paginate.Cursor[ledger.VolumesWithBalanceByAssetByAccount]{}, nil
+}
+
 func (s *mStore) Volumes() common.PaginatedResource[ledger.VolumesWithBalanceByAssetByAccount, ledger.GetVolumesOptions] {
-	panic("dbmodel: Volumes is not modelled")
+	return mVolumes{s}
 }
 
 var _ Store = (*mStore)(nil)
